@@ -12,7 +12,8 @@ package statedb
 //@ spec cnt(s []byte, i mathint) mathint = i <= 0 ? 0 : cnt(s, i-1) + (special(s[i-1]) ? 1 : 0)
 //@ spec encLen(s []byte) mathint = len(s) + cnt(s, len(s))
 //@ spec encAt(o []byte, p mathint, b byte) bool = (b == 0 ==> o[p] == 1 && o[p+1] == 1) && (b == 1 ==> o[p] == 1 && o[p+1] == 2) && (!special(b) ==> o[p] == b)
-//@ spec isEnc(o []byte, off mathint, s []byte) bool = forall k int :: 0 <= k && k < len(s) ==> encAt(o, off + k + cnt(s, k), s[k])
+//@ spec encW(b byte) mathint = special(b) ? 2 : 1
+//@ spec isEnc(o []byte, off mathint, s []byte) bool = forall k int :: 0 <= k && k < len(s) ==> encAt(o, off + k + cnt(s, k), s[k]) && 0 <= cnt(s, k) && k + cnt(s, k) + encW(s[k]) <= encLen(s)
 
 //@ func lemmaCntMono
 //@   property C18 C04
@@ -22,17 +23,53 @@ package statedb
 
 //@ func appendEncode returns (n, out)
 //@   property C18 C04
-//@   use lemmaCntMono
 //@   requires len(src) == 0 || arr(dst) != arr(src)
-//@   ensures @len n == encLen(src)
+//@   ensures @len n == encLen(src) && n >= len(src)
 //@   ensures @outlen len(out) == len(dst) + n
 //@   ensures @srcframe arrOf(src) == old(arrOf(src))
 //@   ensures @prefix forall k int :: 0 <= k && k < len(dst) ==> out[k] == old(dst[k])
 //@   ensures @enc isEnc(out, len(dst), src)
+//@   ensures @where (arr(out) == arr(dst) && off(out) == off(dst) && cap(out) == cap(dst)) || fresh(out)
+//@   ensures @frame unchangedExceptArr(E_uint8, arr(dst), off(dst) + len(dst), off(dst) + cap(dst))
 //@   loop 1 invariant 0 <= $i && $i <= len(src)
 //@   loop 1 invariant len(src) == 0 || arr(dst) != arr(src)
 //@   loop 1 invariant arrOf(src) == old(arrOf(src))
 //@   loop 1 invariant n == $i + cnt(src, $i) && cnt(src, $i) >= 0
 //@   loop 1 invariant len(dst) == len(old(dst)) + n
+//@   loop 1 invariant (arr(dst) == arr(old(dst)) && off(dst) == off(old(dst)) && cap(dst) == cap(old(dst))) || fresh(dst)
+//@   loop 1 invariant unchangedExceptArr(E_uint8, arr(old(dst)), off(old(dst)) + len(old(dst)), off(old(dst)) + cap(old(dst)))
 //@   loop 1 invariant forall k int :: 0 <= k && k < len(old(dst)) ==> dst[k] == old(dst[k])
-//@   loop 1 invariant forall k int :: 0 <= k && k < $i ==> encAt(dst, len(old(dst)) + k + cnt(src, k), src[k]) && 0 <= cnt(src, k) && k + cnt(src, k) + (special(src[k]) ? 2 : 1) <= $i + cnt(src, $i)
+//@   loop 1 invariant forall k int :: 0 <= k && k < $i ==> encAt(dst, len(old(dst)) + k + cnt(src, k), src[k]) && 0 <= cnt(src, k) && k + cnt(src, k) + encW(src[k]) <= $i + cnt(src, $i)
+
+//@ func encodedLength
+//@   property C18 C04
+//@   pure
+//@   ensures result == encLen(src) && result >= len(src)
+//@   loop 1 invariant 0 <= $i && $i <= len(src)
+//@   loop 1 invariant n == len(src) + cnt(src, $i) && cnt(src, $i) >= 0
+
+// The composite key of a non-unique index entry:
+//   enc(secondary) 0x00 enc(primary) hi(len(enc(primary))) lo(len(enc(primary)))
+//@ spec isComposite(K []byte, secondary []byte, primary []byte) bool = len(K) == encLen(secondary) + 1 + encLen(primary) + 2 && isEnc(K, 0, secondary) && K[encLen(secondary)] == 0 && isEnc(K, encLen(secondary) + 1, primary) && K[len(K)-2] == encLen(primary) / 256 && K[len(K)-1] == encLen(primary) % 256
+
+//@ func encodeNonUniqueKey
+//@   property C18 C04
+//@   requires encLen(primary) <= 65535
+//@   ensures @len len(result) == encLen(secondary) + 1 + encLen(primary) + 2
+//@   ensures @encS isEnc(result, 0, secondary)
+//@   ensures @sep result[encLen(secondary)] == 0
+//@   ensures @encP isEnc(result, encLen(secondary) + 1, primary)
+//@   ensures @hi result[len(result)-2] == encLen(primary) / 256
+//@   ensures @lo result[len(result)-1] == encLen(primary) % 256
+//@   ensures @fresh fresh(result)
+
+//@ func nonUniqueKey.primaryLen
+//@   property C18 C04
+//@   pure
+//@   ensures len(k) <= 3 ==> result == 0
+//@   ensures len(k) > 3 ==> result == k[len(k)-2] * 256 + k[len(k)-1]
+
+//@ func nonUniqueKey.secondaryLen
+//@   property C18 C04
+//@   pure
+//@   ensures len(k) > 3 ==> result == len(k) - (k[len(k)-2] * 256 + k[len(k)-1]) - 3
